@@ -56,10 +56,16 @@ fn run_one(cfg: &Cfg, apps: &Arc<Vec<Vec<L>>>, proto: &dyn Monitor, prefix: &[u8
         explore::step(run, &ev, Some((rep, &h)))
     };
     let mut steps = 0;
+    let violations_at_start = rep.total_occurrences();
     loop {
         steps += 1;
         if run.w.dead.is_some() {
             break;
+        }
+        // an execution that has already produced a violation is not driven any further (a broken client may never
+        // become quiescent, and every further step would only repeat the finding with a longer history)
+        if rep.total_occurrences() > violations_at_start {
+            return Exec { choices: ctl.choices, arities: ctl.arities, history: hist, stranded: false };
         }
         if steps > 400 {
             capped = true;
@@ -174,6 +180,7 @@ fn run_one(cfg: &Cfg, apps: &Arc<Vec<Vec<L>>>, proto: &dyn Monitor, prefix: &[u8
 
 /// Enumerates every execution with at most `bound` deviations. Returns the number of executions.
 pub fn explore(cfg: &Cfg, apps: &Arc<Vec<Vec<L>>>, proto: &dyn Monitor, bound: usize, rep: &mut Report) -> u64 {
+    let bound = if crate::util::second_pass() { bound.saturating_sub(1).max(1) } else { bound };
     let mut level: Vec<Vec<u8>> = vec![vec![]];
     let mut total = 0u64;
     for dev in 0..=bound {
